@@ -57,12 +57,20 @@ PROPS["C03"]["groups"] += [
 ]
 
 PROPS["C18"] = {
-    "bounds": "tables with 1..3 entries per list (routes, blacklist, rewriters, aggregations), histories of 1..2 admin operations with free index/key (incl. unknown key, index beyond the end); routes with 1..3 destinations",
-    "outside": "instruction-level interleavings and memory-model effects: the property is reduced to snapshot immutability + single snapshot load per dispatch + model-list equality (DESIGN.md C18)",
+    "bounds": "tables with 1..3 entries per list (routes, blacklist, rewriters, aggregations), histories of 1..2 admin operations with free index/key (incl. unknown key, index beyond the end); routes with 1..3 destinations; concurrent runs: one dispatcher against an admin goroutine making two changes (add rewriter / blacklist entry, delete route), and two admin goroutines making one change each (4x4 operation pairs), every interleaving with at most 2 (thorough 4) preemptions at lock / atomic / channel operations",
+    "outside": "interleavings beyond the preemption bound or at plain memory accesses, and memory-model effects: beyond the bound the property is reduced to snapshot immutability + single snapshot load per dispatch + model-list equality (DESIGN.md C18)",
     "assumptions": ["copy-on-write reduction: if a published snapshot is never modified and each dispatch loads exactly one snapshot, any interleaving equals the change happening before or after the dispatch"],
     "groups": [
         {"pkg": "table", "hdir": "table", "specs": [spec("C18/table", "VerifC18Table"), spec("C18/readers", "VerifC18Readers"), spec("C18/table/n<=4,ops<=2", "VerifC18Table", {"maxn": "4"}, tier="thorough"), spec("C18/table/n<=2,ops<=3", "VerifC18Table", {"maxn": "2", "maxops": "3"}, tier="thorough")]},
         {"pkg": "route", "hdir": "route", "specs": [spec("C18/route", "VerifC18Route")]},
+        # interleavings as decision variables (bounded preemption at lock / atomic / channel operations)
+        {"pkg": "table", "hdir": "table", "native_optional": True, "specs": [
+            spec("C18/concurrent/dispatch-vs-addRewriter+delRoute/preemptions<=2", "VerifC18Concurrent", {"kind": "rewriter", "preemptions": "2"}),
+            spec("C18/concurrent/dispatch-vs-addBlacklist+delRoute/preemptions<=2", "VerifC18Concurrent", {"kind": "blacklist", "preemptions": "2"}),
+            spec("C18/concurrent/two-admin-changes/preemptions<=2", "VerifC18Writers", {"preemptions": "2"}),
+            spec("C18/concurrent/dispatch-vs-addRewriter+delRoute/preemptions<=4", "VerifC18Concurrent", {"kind": "rewriter", "preemptions": "4"}, tier="thorough"),
+            spec("C18/concurrent/two-admin-changes/preemptions<=4", "VerifC18Writers", {"preemptions": "4"}, tier="thorough"),
+        ]},
     ],
 }
 
@@ -97,11 +105,15 @@ PROPS["C05"] = {
 }
 
 PROPS["C19"] = {
-    "bounds": "one Ordered call from an arbitrary register state (one-step induction: own register present/absent with any value, one other register), keys 1..3 symbolic bytes; sequences of 3 calls over two 2-byte names; FNV-1a-64 injectivity for distinct names of 1..3 bytes",
-    "outside": "instruction-level interleavings (reduced to: sequential max-register spec + the global mutex being held across the whole compare-and-set and released on every path); 64-bit hash collisions of longer names",
+    "bounds": "one Ordered call from an arbitrary register state (one-step induction: own register present/absent with any value, one other register), keys 1..3 symbolic bytes; sequences of 3 calls over two 2-byte names; FNV-1a-64 injectivity for distinct names of 1..3 bytes; two concurrent Ordered calls on the same 2-byte name with free timestamps followed by a third call, every interleaving with at most 2 (thorough 3) preemptions at lock / atomic / channel operations",
+    "outside": "interleavings beyond the preemption bound or at plain memory accesses (beyond the bound reduced to: sequential max-register spec + the global mutex being held across the whole compare-and-set and released on every path); more than two concurrent callers; 64-bit hash collisions of longer names",
     "assumptions": ["mutual exclusion by the global mutex + sequential specification imply linearizability to a max-register per name"],
     "groups": [
         {"pkg": "validate", "hdir": "validate", "specs": [spec("C19/step", "VerifC19Step"), spec("C19/seq", "VerifC19Seq"), spec("C19/fnv-injective", "VerifC19Injective")]},
+        {"pkg": "validate", "hdir": "validate", "native_optional": True, "specs": [
+            spec("C19/concurrent/2-callers/preemptions<=1", "VerifC19Concurrent", {"preemptions": "1"}),
+            spec("C19/concurrent/2-callers/preemptions<=2", "VerifC19Concurrent", {"preemptions": "2"}),
+            spec("C19/concurrent/2-callers/preemptions<=3", "VerifC19Concurrent", {"preemptions": "3"}, tier="thorough")]},
         {"pkg": "table", "hdir": "table", "specs": [spec("C19/table/2-points", "VerifC19Table", {"points": "xx"}), spec("C19/table/3-points", "VerifC19Table", {"points": "xxx"}, tier="thorough")]},
     ],
 }
